@@ -295,7 +295,7 @@ func runMinimise(t *testing.T, job Job) {
 	if budget <= 0 {
 		budget = 400
 	}
-	deadline := time.Now().Add(60 * time.Second)
+	deadline := time.Now().Add(30 * time.Second)
 	cur := tapeFromJSON(rf.Tape)
 	execs := 0
 	var best Result
